@@ -337,6 +337,8 @@ class Policy(object):
             if base == 'box_1':
                 n = max(1, p['n_w2'])
                 w = money(d, wl / n, wh / n)
+                if p.get('big_dividends'):
+                    w = money(d, 0, 15000)
                 self.memo[('wage', inst)] = w
                 return w
             w = self.memo.get(('wage', inst), (wl + wh) / 2)
@@ -374,10 +376,12 @@ class Policy(object):
         if fbase == '1099-div':
             if base == 'box_1a':
                 x = self.amount(0, 5000 if p['big_interest'] else 700)
+                if p.get('big_dividends'):
+                    x = money(d, 20000, 90000)       # an investor: dividends are most of the income
                 self.memo[('div', inst)] = x
                 return x
             if base == 'box_1b':
-                return round(self.memo.get(('div', inst), 0.0) * d(st.sampled_from([0, 0.5, 1.0])), 2)
+                return round(self.memo.get(('div', inst), 0.0) * d(st.sampled_from([0, 0.5, 1.0] if not p.get('big_dividends') else [0.5, 1.0, 1.0])), 2)
             if base == 'box_2a':
                 return self.amount(0, 3000)
             if base == 'box_4':
